@@ -3,6 +3,7 @@ package rules
 import (
 	"fmt"
 	"go/token"
+	"go/types"
 	"sort"
 	"strings"
 
@@ -370,8 +371,10 @@ func runRoots(c *core.Ctx) {
 	}
 	var outs []outcome
 	nPaths := 0
-	var walk func(b *ssa.BasicBlock, pred *ssa.BasicBlock, lits rootLits, env map[ssa.Value]bool, appended bool, last token.Pos, onPath map[*ssa.BasicBlock]bool)
-	walk = func(b *ssa.BasicBlock, pred *ssa.BasicBlock, lits rootLits, env map[ssa.Value]bool, appended bool, last token.Pos, onPath map[*ssa.BasicBlock]bool) {
+	// a boolean variable on a path is a known constant, or stands for a literal over one atom (a condition
+	// computed into a variable — `keep := tagged || …` — and branched on later)
+	var walk func(b *ssa.BasicBlock, pred *ssa.BasicBlock, lits rootLits, env map[ssa.Value]symBool, appended bool, last token.Pos, onPath map[*ssa.BasicBlock]bool)
+	walk = func(b *ssa.BasicBlock, pred *ssa.BasicBlock, lits rootLits, env map[ssa.Value]symBool, appended bool, last token.Pos, onPath map[*ssa.BasicBlock]bool) {
 		if nPaths > 200000 {
 			return
 		}
@@ -389,7 +392,7 @@ func runRoots(c *core.Ctx) {
 		onPath[b] = true
 		defer delete(onPath, b)
 		// phis
-		env2 := make(map[ssa.Value]bool, len(env)+2)
+		env2 := make(map[ssa.Value]symBool, len(env)+2)
 		for k, v := range env {
 			env2[k] = v
 		}
@@ -411,10 +414,28 @@ func runRoots(c *core.Ctx) {
 			e := phi.Edges[pi]
 			if k, ok := e.(*ssa.Const); ok {
 				if bv, ok := an.ConstBool(k); ok {
-					env2[phi] = bv
+					env2[phi] = symBool{known: true, val: bv}
 				}
-			} else if bv, ok := env[e]; ok {
-				env2[phi] = bv
+			} else if sv, ok := env[e]; ok {
+				env2[phi] = sv
+			} else if eb, eneg := an.CondBase(e); eb != nil {
+				if sv, ok := env[eb]; ok {
+					if eneg {
+						sv = sv.not()
+					}
+					env2[phi] = sv
+				} else if isSubjExists(eb) {
+					// decided when branched on
+				} else if _, isBool := e.Type().Underlying().(*types.Basic); isBool && e.Type().Underlying().(*types.Basic).Kind() == types.Bool {
+					if at, pol, ok := atomOf(e); ok {
+						found[at] = true
+						if lits[at] != 0 {
+							env2[phi] = symBool{known: true, val: lits[at] == pol}
+						} else {
+							env2[phi] = symBool{atom: at, pol: pol, isAtom: true}
+						}
+					}
+				}
 			}
 		}
 		for _, in := range b.Instrs {
@@ -430,7 +451,57 @@ func runRoots(c *core.Ctx) {
 			return
 		}
 		base, neg := an.CondBase(ifi.Cond)
-		if bv, ok := env2[base]; ok {
+		// branchAtom splits the path on an atom; condPol is the polarity of the atom when the condition holds
+		branchAtom := func(at rootAtom, condPol int8, envFor func(val bool) map[ssa.Value]symBool) {
+			found[at] = true
+			for si := 0; si < 2; si++ {
+				v := condPol
+				if si == 1 {
+					v = -condPol
+				}
+				if lits[at] != 0 && lits[at] != v {
+					continue // contradicts an earlier decision on this path
+				}
+				l2 := lits
+				l2[at] = v
+				if at == atomA && v < 0 {
+					// no annotations: neither a tag nor a subject annotation
+					if l2[atomT] > 0 || l2[atomS] > 0 {
+						continue
+					}
+					l2[atomT], l2[atomS] = -1, -1
+				}
+				if (at == atomT || at == atomS) && v > 0 {
+					if l2[atomA] < 0 {
+						continue
+					}
+					l2[atomA] = 1
+				}
+				walk(b.Succs[si], b, l2, envFor(si == 0), appended, ifi.Cond.Pos(), onPath)
+			}
+		}
+		if sv, ok := env2[base]; ok && sv.isAtom {
+			if lits[sv.atom] != 0 {
+				sv = symBool{known: true, val: lits[sv.atom] == sv.pol}
+			} else {
+				pol := sv.pol
+				if neg {
+					pol = -pol
+				}
+				branchAtom(sv.atom, pol, func(condTrue bool) map[ssa.Value]symBool {
+					env3 := make(map[ssa.Value]symBool, len(env2)+1)
+					for k, x := range env2 {
+						env3[k] = x
+					}
+					env3[base] = symBool{known: true, val: condTrue != neg}
+					return env3
+				})
+				return
+			}
+			env2[base] = sv
+		}
+		if sv, ok := env2[base]; ok && sv.known {
+			bv := sv.val
 			if isSubjExists(base) {
 				found[atomE] = true
 				v := int8(-1)
@@ -464,11 +535,11 @@ func runRoots(c *core.Ctx) {
 				}
 				l2 := lits
 				l2[atomE] = v
-				env3 := make(map[ssa.Value]bool, len(env2)+1)
+				env3 := make(map[ssa.Value]symBool, len(env2)+1)
 				for k, x := range env2 {
 					env3[k] = x
 				}
-				env3[base] = val
+				env3[base] = symBool{known: true, val: val}
 				si := 1
 				if val != neg {
 					si = 0
@@ -478,32 +549,7 @@ func runRoots(c *core.Ctx) {
 			return
 		}
 		if at, pol, ok := atomOf(ifi.Cond); ok {
-			found[at] = true
-			for si := 0; si < 2; si++ {
-				v := pol
-				if si == 1 {
-					v = -pol
-				}
-				if lits[at] != 0 && lits[at] != v {
-					continue // contradicts an earlier decision on this path
-				}
-				l2 := lits
-				l2[at] = v
-				if at == atomA && v < 0 {
-					// no annotations: neither a tag nor a subject annotation
-					if l2[atomT] > 0 || l2[atomS] > 0 {
-						continue
-					}
-					l2[atomT], l2[atomS] = -1, -1
-				}
-				if (at == atomT || at == atomS) && v > 0 {
-					if l2[atomA] < 0 {
-						continue
-					}
-					l2[atomA] = 1
-				}
-				walk(b.Succs[si], b, l2, env2, appended, ifi.Cond.Pos(), onPath)
-			}
+			branchAtom(at, pol, func(bool) map[ssa.Value]symBool { return env2 })
 			return
 		}
 		for _, s := range b.Succs {
@@ -513,7 +559,7 @@ func runRoots(c *core.Ctx) {
 	for i, s := range h.Succs {
 		_ = i
 		if inLoopBody(s) {
-			walk(s, h, rootLits{}, map[ssa.Value]bool{}, false, token.NoPos, map[*ssa.BasicBlock]bool{})
+			walk(s, h, rootLits{}, map[ssa.Value]symBool{}, false, token.NoPos, map[*ssa.BasicBlock]bool{})
 		}
 	}
 	if len(outs) == 0 {
@@ -577,6 +623,25 @@ func runRoots(c *core.Ctx) {
 			c.Fail(q.key, bad.last, "%s", fmt.Sprintf("%s: the iteration path [%s] of the root-selection loop of %s (last decision at %s) %s", q.text, bad.lits, c.P.FuncName(fn), c.P.Pos(bad.last), verb))
 		}
 	}
+}
+
+// symBool is the value of a boolean variable along one enumerated path.
+type symBool struct {
+	known  bool
+	val    bool
+	isAtom bool
+	atom   rootAtom
+	pol    int8 // polarity of the atom when the variable is true
+}
+
+func (s symBool) not() symBool {
+	if s.known {
+		s.val = !s.val
+	}
+	if s.isAtom {
+		s.pol = -s.pol
+	}
+	return s
 }
 
 func constStringOf(v ssa.Value) (string, bool) {
